@@ -67,13 +67,13 @@ theorem entries_sound {cfg : Cfg} (hw : cfg.wf) (v : Variant) (hv : v.fallThroug
   | succ f ih =>
     intro st res id pre r rest hrecs hl hid
     rw [entries]
-    have ha := getSdrData_allowed hw v hv s st id hid (some res)
-    rcases hg : getSdrData K XK v (step cfg) s st id (some res) with ⟨st1, o⟩
+    have ha := getSdrDataR_allowed hw v hv s st id hid (some res)
+    rcases hg : getSdrDataR K XK v (step cfg) s st id (some res) with ⟨st1, o⟩
     rw [hg] at ha
     cases o with
     | ok p =>
-      obtain ⟨nx, d⟩ := p
-      have hx := getSdrData_exact hw v hv s st id hid (some res) hg
+      obtain ⟨⟨nx, d⟩, res1⟩ := p
+      have hx := getSdrDataR_exact hw v hv s st id hid (some res) hg
       rw [hl] at hx
       injection hx with hx
       injection hx with h1 h2
@@ -100,7 +100,7 @@ theorem entries_sound {cfg : Cfg} (hw : cfg.wf) (v : Variant) (hv : v.fallThroug
         simp only [if_neg e1, if_neg e2]
         have hl1 : lookup (cfg.recs s) (recId r1) = some (r1, nextOf rest1) := by
           rw [hrecs']; exact lookup_chain hwf (by simp)
-        obtain ⟨i1, i2⟩ := ih st1 res (recId r1) (pre ++ [r]) r1 rest1 hrecs' hl1 (recWf_facts w1).2.2.1
+        obtain ⟨i1, i2⟩ := ih st1 (if v.staleRes then res else res1) (recId r1) (pre ++ [r]) r1 rest1 hrecs' hl1 (recWf_facts w1).2.2.1
         exact ⟨i1, fun hlt => i2 (by simp at hlt; omega)⟩
     | retryError => simp [recast, Allowed]
     | ccError c => simp [recast, Allowed]
@@ -123,13 +123,13 @@ theorem sdrList_sound {cfg : Cfg} (hw : cfg.wf) (v : Variant) (hv : v.fallThroug
       | zero => simp [entries]
       | succ f =>
         rw [entries]
-        have ha := getSdrData_allowed hw v hv s st0 0 (by omega) (some res)
-        rcases hg : getSdrData K XK v (step cfg) s st0 0 (some res) with ⟨st1, o⟩
+        have ha := getSdrDataR_allowed hw v hv s st0 0 (by omega) (some res)
+        rcases hg : getSdrDataR K XK v (step cfg) s st0 0 (some res) with ⟨st1, o⟩
         rw [hg] at ha
         cases o with
         | ok p =>
-          obtain ⟨nx, d⟩ := p
-          have hx := getSdrData_exact hw v hv s st0 0 (by omega) (some res) hg
+          obtain ⟨⟨nx, d⟩, res1⟩ := p
+          have hx := getSdrDataR_exact hw v hv s st0 0 (by omega) (some res) hg
           rw [hrecs] at hx
           simp [lookup] at hx
         | retryError => simp [recast, Allowed]
@@ -158,7 +158,7 @@ theorem entries_complete {cfg : Cfg} (hw : cfg.wf) (hnt : cfg.transients = []) (
   | succ f ih =>
     intro st res id pre r rest hrecs hl hid hfuel hp
     rw [entries]
-    obtain ⟨st1, hg, hn1⟩ := getSdrData_completes hw hnt v hv hren hid hl h5
+    obtain ⟨st1, res1, hg, hn1⟩ := getSdrDataR_completes hw hnt v hv hren hid hl h5
       (hfit r (by rw [hrecs]; simp)) st (some res) hp
     rw [hg]
     simp only
@@ -180,7 +180,7 @@ theorem entries_complete {cfg : Cfg} (hw : cfg.wf) (hnt : cfg.transients = []) (
       simp only [if_neg e1, if_neg e2]
       have hl1 : lookup (cfg.recs s) (recId r1) = some (r1, nextOf rest1) := by
         rw [hrecs']; exact lookup_chain hwf (by simp)
-      exact ih st1 res (recId r1) (pre ++ [r]) r1 rest1 hrecs' hl1 (recWf_facts w1).2.2.1
+      exact ih st1 (if v.staleRes then res else res1) (recId r1) (pre ++ [r]) r1 rest1 hrecs' hl1 (recWf_facts w1).2.2.1
         (by simp at hfuel; omega) (Nat.le_trans (pending_mono cfg hn1) hp)
 
 theorem sdrList_complete {cfg : Cfg} (hw : cfg.wf) (hnt : cfg.transients = []) (v : Variant)
@@ -363,20 +363,20 @@ theorem getChunk_ext (v : Variant) (s : Store) (st : σ × List (Req × Rsp)) (r
   exact chunkLoop_ext x s (v.renew s) id off cnt _ _ _
 
 theorem dataLoop_ext {τ : Type} (s s' : Store) (X : XConsts) (v : Variant)
-    (get : τ × List (Req × Rsp) → Nat → Nat → (τ × List (Req × Rsp)) × Outcome (Nat × List Nat))
-    (hget : ∀ st off len, Ext s s' st (get st off len).1) (recLen : Nat) :
-    ∀ r m st acc next last, Ext s s' st (dataLoop X v get recLen r m st acc next last).1 := by
+    (get : τ × List (Req × Rsp) → Nat → Nat → Nat → ((τ × List (Req × Rsp)) × Outcome (Nat × List Nat)) × Nat)
+    (hget : ∀ st res off len, Ext s s' st (get st res off len).1.1) (recLen : Nat) :
+    ∀ r m st res acc next last, Ext s s' st (dataLoop X v get recLen r m st res acc next last).1 := by
   intro r
   induction r with
-  | zero => intro m st acc next last; simp [dataLoop]; exact Ext.refl _ _ _
+  | zero => intro m st res acc next last; simp [dataLoop]; exact Ext.refl _ _ _
   | succ r ih =>
-    intro m st acc next last
+    intro m st res acc next last
     rw [dataLoop_succ]
     by_cases hr0 : r = 0
     · simp [hr0]; exact Ext.refl _ _ _
     · simp only [if_neg hr0]
-      have hg := hget st acc.length (if acc.length + m > recLen then recLen - acc.length else m)
-      rcases hgd : get st acc.length (if acc.length + m > recLen then recLen - acc.length else m) with ⟨st1, o⟩
+      have hg := hget st res acc.length (if acc.length + m > recLen then recLen - acc.length else m)
+      rcases hgd : get st res acc.length (if acc.length + m > recLen then recLen - acc.length else m) with ⟨⟨st1, o⟩, res1⟩
       rw [hgd] at hg
       simp only at hg
       cases o with
@@ -385,7 +385,7 @@ theorem dataLoop_ext {τ : Type} (s s' : Store) (X : XConsts) (v : Variant)
         simp only
         split
         · exact hg
-        · exact Ext.trans hg (ih _ _ _ _ _)
+        · exact Ext.trans hg (ih _ _ _ _ _ _)
       | ccError c =>
         simp only
         split
@@ -394,8 +394,8 @@ theorem dataLoop_ext {τ : Type} (s s' : Store) (X : XConsts) (v : Variant)
           · split
             · split
               · exact hg
-              · exact Ext.trans hg (ih _ _ _ _ _)
-            · exact Ext.trans hg (ih _ _ _ _ _)
+              · exact Ext.trans hg (ih _ _ _ _ _ _)
+            · exact Ext.trans hg (ih _ _ _ _ _ _)
         · exact hg
       | _ => exact hg
 
@@ -403,7 +403,8 @@ theorem getSdrDataWith_ext (v : Variant) (s : Store) (st : σ × List (Req × Rs
     Ext s (v.renew s) st (getSdrDataWith K XK v (traced x) s st id res).1 := by
   unfold getSdrDataWith
   have hc := getChunk_ext x v s st res id 0 XK.hdrLen
-  rcases hg : getChunk K v (traced x) s st res id 0 XK.hdrLen with ⟨st1, o⟩
+  rcases hgf : getFn K v (traced x) s id st res 0 XK.hdrLen with ⟨⟨st1, o⟩, res1⟩
+  have hg := getFn_eq hgf
   rw [hg] at hc
   simp only at hc
   cases o with
@@ -412,12 +413,12 @@ theorem getSdrDataWith_ext (v : Variant) (s : Store) (st : σ × List (Req × Rs
     simp only
     split
     · exact hc
-    · exact Ext.trans hc (dataLoop_ext s (v.renew s) XK v _ (fun st off len => getChunk_ext x v s st res _ off len) _ _ _ _ _ _ _)
+    · exact Ext.trans hc (dataLoop_ext s (v.renew s) XK v _ (fun st res off len => getChunk_ext x v s st res _ off len) _ _ _ _ _ _ _ _)
   | _ => exact hc
 
-theorem getSdrData_ext (v : Variant) (s : Store) (st : σ × List (Req × Rsp)) (id : Nat) (res? : Option Nat) :
-    Ext s (v.renew s) st (getSdrData K XK v (traced x) s st id res?).1 := by
-  unfold getSdrData
+theorem getSdrDataR_ext (v : Variant) (s : Store) (st : σ × List (Req × Rsp)) (id : Nat) (res? : Option Nat) :
+    Ext s (v.renew s) st (getSdrDataR K XK v (traced x) s st id res?).1 := by
+  unfold getSdrDataR
   cases res? with
   | some r => exact getSdrDataWith_ext x v s st id r
   | none =>
@@ -430,6 +431,10 @@ theorem getSdrData_ext (v : Variant) (s : Store) (st : σ × List (Req × Rsp)) 
     | ok r => exact Ext.trans hr (getSdrDataWith_ext x v s st0 id r)
     | _ => exact hr
 
+theorem getSdrData_ext (v : Variant) (s : Store) (st : σ × List (Req × Rsp)) (id : Nat) (res? : Option Nat) :
+    Ext s (v.renew s) st (getSdrData K XK v (traced x) s st id res?).1 :=
+  getSdrDataR_ext x v s st id res?
+
 theorem entries_ext (v : Variant) (s : Store) :
     ∀ fuel (st : σ × List (Req × Rsp)) res id acc, Ext s (v.renew s) st (entries K XK v (traced x) s fuel st res id acc).1 := by
   intro fuel
@@ -438,13 +443,13 @@ theorem entries_ext (v : Variant) (s : Store) :
   | succ f ih =>
     intro st res id acc
     rw [entries]
-    have hg := getSdrData_ext x v s st id (some res)
-    rcases hgd : getSdrData K XK v (traced x) s st id (some res) with ⟨st1, o⟩
+    have hg := getSdrDataR_ext x v s st id (some res)
+    rcases hgd : getSdrDataR K XK v (traced x) s st id (some res) with ⟨st1, o⟩
     rw [hgd] at hg
     simp only at hg
     cases o with
     | ok p =>
-      obtain ⟨nx, d⟩ := p
+      obtain ⟨⟨nx, d⟩, res1⟩ := p
       simp only
       split
       · exact hg
